@@ -6,7 +6,8 @@ pub struct ReplaySubject<'a, Item>
 where
   Item: Clone + Send + Sync,
 {
-  subject: Arc<subject::Subject<'a, Item>>,
+  // live items travel with their index in `items`
+  subject: Arc<subject::Subject<'a, (usize, Item)>>,
   items: Arc<RwLock<Vec<Item>>>,
   was_error: Arc<RwLock<Option<RxError>>>,
   was_completed: Arc<RwLock<bool>>,
@@ -26,8 +27,12 @@ where
   }
 
   pub fn next(&self, item: Item) {
-    (*self.items.write().unwrap()).push(item.clone());
-    self.subject.next(item);
+    let index = {
+      let mut items = self.items.write().unwrap();
+      items.push(item.clone());
+      items.len() - 1
+    };
+    self.subject.next((index, item));
   }
   pub fn error(&self, err: RxError) {
     *self.was_error.write().unwrap() = Some(err.clone());
@@ -63,6 +68,15 @@ where
       let s_complete = s.clone();
       let s_alive = s.clone();
 
+      // number of items the replay has handed to this subscriber; `None` until
+      // the replay is done. A live item below that mark is already covered by
+      // the replay (it was pushed before or during it) and must not be
+      // delivered a second time.
+      let replayed = Arc::new(RwLock::new(None::<usize>));
+      let replayed_live = Arc::clone(&replayed);
+      let replayed_error = Arc::clone(&replayed);
+      let replayed_complete = Arc::clone(&replayed);
+
       *sbsc.write().unwrap() = Some(
         utils::ready_set_go(
           move || {
@@ -73,6 +87,7 @@ where
             items.iter().for_each(|x| {
               s.next(x.clone());
             });
+            *replayed.write().unwrap() = Some(items.len());
             if let Some(err) = &*was_error {
               s.error(err.clone());
               return;
@@ -84,10 +99,26 @@ where
           subject.observable(),
         )
         .subscribe(
-          move |x| s_next.next(x),
-          move |e| s_error.error(e),
+          move |(index, x)| {
+            let is_new = match *replayed_live.read().unwrap() {
+              Some(n) => index >= n,
+              None => false,
+            };
+            if is_new {
+              s_next.next(x)
+            }
+          },
+          // a terminal that arrives before the replay is done is stored
+          // already and will be delivered by the replay itself
+          move |e| {
+            if replayed_error.read().unwrap().is_some() {
+              s_error.error(e)
+            }
+          },
           move || {
-            s_complete.complete();
+            if replayed_complete.read().unwrap().is_some() {
+              s_complete.complete();
+            }
           },
         ),
       );
